@@ -47,18 +47,39 @@ def run(ctx):
     b = cm.body_or_fail(ctx, p, "C15-R2", AHT)
     if b is not None:
         eb = ExprBuilder(b)
-        sts = stores(b, eb)
+        sts0 = stores(b, eb)
+        sts = [(bb, i, st, tgt, root, chain, val, paths.guards(b, bb, eb), None) for bb, i, st, tgt, root, chain, val in sts0]
+        if not sts0:
+            # closure form: self.0.iter_mut().for_each(|(pdfs, _)| { pdfs[0].0 = f(pdfs[0].0) }) - the
+            # element stores live in the closure; captured values are resolved to the parent's terms
+            from ..expr import resolve_upvars
+            for fbb, ft in b.calls():
+                fc = ft["callee"]
+                if fc["k"] != "fndef" or not cm.callee_name(fc).endswith("::for_each"):
+                    continue
+                recv = eb.at(fbb).op(ft["args"][0])
+                clo = eb.op(ft["args"][1])
+                if show(recv) != "self.0" or not (clo[0] == "agg" and clo[1].startswith("closure:")):
+                    continue
+                cb = p.bodies.get(clo[1][len("closure:"):])
+                if cb is None:
+                    continue
+                ceb = ExprBuilder(cb)
+                pg = paths.guards(b, fbb, eb)
+                for bb, i, st, tgt, root, chain, val in stores(cb, ceb):
+                    if root[0] == "arg" and root[1] == 2:
+                        sts.append((bb, i, st, tgt, root, chain, resolve_upvars(p, cb, val), pg + paths.guards(cb, bb, ceb),
+                                    "for_each over self.0.iter_mut() (every element)"))
         ctx.anchor("C15-R2", "stores in apply_additional_half_tone", len(sts), 1, b.loc())
-        for bb, i, st, tgt, root, chain, val in sts:
+        for bb, i, st, tgt, root, chain, val, gs, trav in sts:
             # target: <element of self.0>.0[0].0  -> chain ends with ['0', '[]', '0'] and the index is constant 0
             okt = chain[-3:] == ["0", "[]", "0"] and tgt[1][0] == "idx" and tgt[1][2][0] == "c" and tgt[1][2][1] == 0
             elem_src = show(tgt)
-            if okt and "self.0" in elem_src:
+            if okt and ("self.0" in elem_src or trav is not None):
                 ctx.ok("C15-R2", "store target is (element of self.0).0[0].0: the mean of the static component", cm.loc_of(st["span"]))
             else:
                 ctx.fail("C15-R2", b.path, "store target", "apply_additional_half_tone writes %s (chain %s), expected only the mean of the first component" % (elem_src[-80:], chain), cm.loc_of(st["span"]))
             # guard: not on the h == 0 path
-            gs = paths.guards(b, bb, eb)
             nz = False
             for g in gs:
                 if g[0] in ("true", "false"):
@@ -73,6 +94,8 @@ def run(ctx):
                     if c[0] == "bin" and {show(c[2]), show(c[3])} == {"additional_half_tone", "0.0"}:
                         continue
                 gsrc = show(g[1]) if len(g) > 1 and isinstance(g[1], tuple) else str(g)
+                if trav is not None and g[0] == "some" and False:
+                    continue
                 if g[0] == "some" and re.match(r"^<std::slice::IterMut<.*?> as std::iter::Iterator>::next\(self\.0\)$", gsrc):
                     ctx.ok("C15-R2", "the store runs for every element of self.0 (plain iter_mut traversal)", cm.loc_of(st["span"]))
                     continue
@@ -182,7 +205,68 @@ def run(ctx):
                                 s_ = show(eb.at(gbb).op(a_))
                                 if "create(" in s_ and "msd_threshold[1]" in s_ and "gv_weight[1]" in s_:
                                     direct = True
-        if direct:
+        applied = False
+        g0 = p.body("engine::Engine::generator")
+        if (not direct) and bd.kind == "Closure" and bd.parent == "engine::Engine::generator" and g0 is not None and show(recv).endswith(".stream"):
+            # closure form applied directly: `prepare(&mut v)` with v = model_stream(1), v then handed to
+            # the MlpgAdjust whose create() result is the lf0 trajectory
+            geb0 = ExprBuilder(g0)
+            for cbb, ct in g0.calls():
+                cn_ = cm.callee_name(ct["callee"]) if ct["callee"]["k"] == "fndef" else ""
+                if not cn_.endswith("FnOnce::call_once") and not cn_.endswith("FnMut::call_mut") and not cn_.endswith("Fn::call"):
+                    continue
+                a0 = geb0.at(cbb).op(ct["args"][0])
+                if not (a0[0] == "agg" and a0[1] == "closure:" + bd.path):
+                    continue
+                # the tuple's single element is `&mut V`
+                tl = ct["args"][1]["place"]["local"] if ct["args"][1].get("k") in ("move", "copy") else None
+                vl = None
+                for dbb, didx, ditem in g0.defs().get(tl, []):
+                    if didx != "term" and ditem["rv"]["k"] == "aggregate" and len(ditem["rv"]["ops"]) == 1 and ditem["rv"]["ops"][0].get("k") in ("move", "copy"):
+                        rl_ = ditem["rv"]["ops"][0]["place"]["local"]
+                        # `&mut V`, possibly through reborrows `&mut *r`
+                        for _ in range(4):
+                            nxt_ = None
+                            for d2 in g0.defs().get(rl_, []):
+                                if d2[1] != "term" and d2[2]["rv"]["k"] == "ref":
+                                    pj = d2[2]["rv"]["place"]["proj"]
+                                    if not pj:
+                                        vl = d2[2]["rv"]["place"]["local"]
+                                    elif all(e_["k"] == "deref" for e_ in pj):
+                                        nxt_ = d2[2]["rv"]["place"]["local"]
+                            if vl is not None or nxt_ is None:
+                                break
+                            rl_ = nxt_
+                if vl is None:
+                    continue
+                src = show(geb0.local(vl))
+
+                def base_local2(op):
+                    n_ = 0
+                    while op.get("k") in ("move", "copy") and not op["place"]["proj"] and n_ < 6:
+                        l_ = op["place"]["local"]
+                        if l_ == vl:
+                            return l_
+                        ds_ = [d_ for d_ in g0.defs().get(l_, []) if not g0.is_cleanup(d_[0])]
+                        if len(ds_) == 1 and ds_[0][1] != "term" and ds_[0][2]["rv"]["k"] == "use":
+                            op = ds_[0][2]["rv"]["op"]
+                            n_ += 1
+                            continue
+                        return l_
+                    return None
+                news = [(nbb, nt) for nbb, nt in cm.local_calls(g0, p, exact="mlpg_adjust::MlpgAdjust::<'a>::new") if base_local2(nt["args"][2]) == vl]
+                if src.startswith("model::Models::<'a>::model_stream(") and src.endswith(", 1)") and len(news) == 1 and cbb in g0.dominators().get(news[0][0], ()) and cbb != news[0][0]:
+                    nb = p.body("speech::SpeechGenerator::new")
+                    for gbb, gt in cm.local_calls(g0, p, exact="speech::SpeechGenerator::new"):
+                        for k_, a_ in enumerate(gt["args"]):
+                            if nb is not None and nb.local_name(k_ + 1) == "lf0":
+                                s_ = show(geb0.at(gbb).op(a_))
+                                if "create(" in s_ and "msd_threshold[1]" in s_ and "gv_weight[1]" in s_:
+                                    applied = True
+        if applied:
+            direct = True
+            ctx.ok("C15-R4", "the closure holding the single call is applied to the value of model_stream(1) before that value is handed to the MlpgAdjust whose create() result is the lf0 trajectory", cm.loc_of(t["span"]))
+        elif direct:
             ctx.ok("C15-R4", "the single call shifts the value of model_stream(1) in place, before it is handed to the MlpgAdjust whose create() result is the lf0 trajectory", cm.loc_of(t["span"]))
         elif bd.kind == "Closure" and bd.parent == "engine::Engine::generator" and show(recv).endswith(".stream") and "additional_half_tone" in show(harg) and "condition" in show(harg):
             ctx.ok("C15-R4", "the single call is in Engine::generator's closure: m.stream.apply_additional_half_tone(self.condition.additional_half_tone)", cm.loc_of(t["span"]))
